@@ -120,7 +120,7 @@ def cases(rng, tier):
         mode = rng.random()
         payload = {"nq": nq, "instrs": instrs, "bases": bases, "ids": ids, "nmaps": nmaps,
                    "inplace": rng.random() < 0.4, "cregs": rng.choice([[], [], [["c", 2]]]),
-                   "pick": rng.randrange(1 << 30), "mode": "valid"}
+                   "pick": rng.randrange(1 << 30), "mode": "valid", "prewarm": rng.random() < 0.25}
         if mode < 0.62:
             pass
         elif mode < 0.70:
@@ -201,6 +201,16 @@ def _materialise(payload):
             instrs[d[1]]["half"] = min(instrs[d[1]]["half"], 1)
     desc = {"nq": payload["nq"], "cregs": payload["cregs"], "instrs": instrs}
     qc = canon.build_circuit(desc, bases)
+    if payload.get("prewarm"):
+        # history: the definition of every placeholder was read earlier, while it carried another map id (drawing, transpiling, ...)
+        from qiskit_addon_cutting.qpd import BaseQPDGate
+        for inst in qc.data:
+            op = inst.operation
+            if isinstance(op, BaseQPDGate):
+                orig = op.basis_id
+                op.basis_id = (0 if orig != 0 else len(op.basis.maps) - 1)
+                _ = op.definition
+                op.basis_id = orig
     return qc, bases, ids, map_ids
 
 
@@ -256,7 +266,7 @@ def compare(kind, payload, real, model):
 
 
 def describe(kind, payload):
-    return {"mode": payload["mode"], "nq": payload["nq"], "placeholders": sum(1 for i in payload["instrs"] if i["name"].startswith("qpd")),
+    return {"mode": payload["mode"], "prewarm": bool(payload.get("prewarm")), "nq": payload["nq"], "placeholders": sum(1 for i in payload["instrs"] if i["name"].startswith("qpd")),
             "inplace": payload["inplace"]}
 
 
